@@ -147,6 +147,41 @@ func runC08(r *mc.Run) {
 			}
 		}
 	}
+	// 1a'. the same for a one-entry allowed-MR_TD list, plus 8-byte groups exchanged
+	{
+		mr := append([]byte(nil), raw0[48+136:48+184]...)
+		for b1 := 0; b1 < 384; b1++ {
+			for b2 := b1 + 1; b2 < 384; b2++ {
+				if !r.Thorough() && (b1%8 != b2%8) && (b1/8+b2/8)%5 != 0 {
+					continue
+				}
+				v := append([]byte(nil), mr...)
+				v[b1/8] ^= 1 << uint(b1%8)
+				v[b2/8] ^= 1 << uint(b2%8)
+				o := &validate.Options{}
+				o.TdQuoteBodyOptions.AnyMrTd = [][]byte{v}
+				add(fmt.Sprintf("opt2/AnyMrTd[0]^bit%d^bit%d", b1, b2), raw0, o)
+			}
+		}
+		for _, f := range optFields {
+			for a := 0; a+8 <= f.len; a += 8 {
+				for b := a + 8; b+8 <= f.len; b += 8 {
+					v := val(f)
+					w := append([]byte(nil), v...)
+					copy(w[a:a+8], v[b:b+8])
+					copy(w[b:b+8], v[a:a+8])
+					o := &validate.Options{}
+					f.set(o, w)
+					add(fmt.Sprintf("swap8/%s@%d,%d", f.name, a, b), raw0, o)
+					if f.name == "MrTd" {
+						o2 := &validate.Options{}
+						o2.TdQuoteBodyOptions.AnyMrTd = [][]byte{w}
+						add(fmt.Sprintf("swap8/AnyMrTd[0]@%d,%d", a, b), raw0, o2)
+					}
+				}
+			}
+		}
+	}
 	// 1b. every length from 0 to four times the field size (+1), contents = the quote's value repeated
 	for _, f := range optFields {
 		for n := 0; n <= 4*f.len+1; n++ {
